@@ -20,7 +20,8 @@ import (
 	errorx "github.com/panjf2000/gnet/v2/pkg/errors"
 )
 
-const maxEvents = 400000
+// an event flood (a spinning loop) must not fill the disk: the log is cut after this many events per round
+var maxEvents = 400000 * vsup.EnvInt("VERIF_ROUNDS", 1)
 
 type recorder struct {
 	mu    sync.Mutex
